@@ -59,6 +59,8 @@ def run_unit(fn, tier, seed):
                 entry['reason'] = v.reason
             if v.status == 'failed':
                 entry.update(_handle_failure(unit, res, ob, v, extra))
+            elif v.status == 'undecided' and res.get('replay') and extra is not None:
+                entry.update(_finite_scope(unit, res, ob, extra))
             if len(rec['samples']) < 3 and v.status == 'discharged':
                 try:
                     s = z3.Solver()
@@ -71,7 +73,7 @@ def run_unit(fn, tier, seed):
                     pass
             rec['obligations'].append(entry)
         if res.get('canary') is not None:
-            cv = discharge(res['canary'], timeout_ms=5000, want_model=False)
+            cv = discharge(res['canary'], timeout_ms=1500, want_model=False)
             rec['obligations'].append({'name': res['canary'].name, 'kind': 'canary',
                                        'status': 'inconsistent' if cv.status == 'discharged' else 'discharged',
                                        'backend': cv.backend, 'seconds': round(cv.seconds, 4)})
@@ -99,10 +101,37 @@ def _handle_failure(unit, res, ob, v, path):
         small = _minimise(ob, sizes)
         use = small or model
         inputs = spec['concretise'](use, state, ob)
-        out['replay'] = {'fn': spec['fn'], 'inputs': inputs, 'minimised': small is not None}
+        from .replay import call_replay
+        out['replay'] = {'fn': spec['fn'], 'inputs': inputs, 'minimised': small is not None,
+                         'result': call_replay(spec['fn'], inputs)}
     except Exception as e:
         out['replay'] = None
         out['concretise_error'] = f'{type(e).__name__}: {e}'
+    return out
+
+
+def _finite_scope(unit, res, ob, path):
+    """Solver said unknown: look for a small counter-model by grounding; keep it only if it replays natively."""
+    from .ground import finite_scope_model
+    from .replay import call_replay
+    spec = res['replay']
+    out = {}
+    try:
+        state = path.ctx.ghost.get('state')
+        sizes = spec['sizes'](state) if spec.get('sizes') else []
+        model, b = finite_scope_model(ob, sizes)
+        if model is None:
+            return out
+        inputs = spec['concretise'](model, state, ob)
+        r = call_replay(spec['fn'], inputs)
+        out['finite_scope'] = {'bound': b, 'reproduced': r['reproduced']}
+        if r['reproduced']:
+            out['status'] = 'failed'
+            out['reason'] = f'solver unknown; counter-model found by finite-scope grounding (sizes <= {b}) and reproduced natively'
+            out['model_excerpt'] = _model_excerpt(model)
+            out['replay'] = {'fn': spec['fn'], 'inputs': inputs, 'minimised': True, 'result': r}
+    except Exception as e:
+        out['finite_scope_error'] = f'{type(e).__name__}: {e}'
     return out
 
 
